@@ -475,3 +475,8 @@ N('benign.rrsig-demands-fixed-part-only', [(P + 'dnsrec/record.py', "    HEADER_
 # attr.ib(<validator>): the first positional argument is the default
 B('C01.validator-in-default-position', ['C01'], [(P + 'ssh/key.py', "    signature_data = attr.ib(validator=attr.validators.instance_of((bytes, bytearray)))",
   "    signature_data = attr.ib(attr.validators.instance_of((bytes, bytearray)))")], mention=['C01.R17', 'signature_data'])
+# the modulus / prime of a parsed key: refused unless positive (the key size is its logarithm)
+B('C14.rsa-modulus-sign-not-tested', ['C14'], [(P + 'ssh/key.py', "        if parser['n'] <= 0:\n", "        if parser['n'] == 0:\n")], mention=['C14.R15', 'negative'])
+B('C14.dnskey-prime-not-tested', ['C14'], [(P + 'dnsrec/record.py', "        if not key_parser['p']:\n            # the size of a key is the size of its prime, there is none for zero\n            raise InvalidValue(key_parser['p'], cls, 'p')\n", "")],
+  mention=['C14.R15'], props=['C14', 'C08'])
+N('benign.rsa-modulus-test-spelled-lt-1', [(P + 'ssh/key.py', "        if parser['n'] <= 0:\n", "        if parser['n'] < 1:\n")])
